@@ -15,6 +15,11 @@ SERIES = [
     {"id": 3, "m": "mem", "tags": [["rack", "r2"], ["host", "a"], ["dc", "1"]]},
     {"id": 4, "m": "disk io", "tags": [["path", "/a b,c"], ["host", "a=1"]]},
     {"id": 5, "m": "cpu", "tags": []},
+    # tag keys that are prefixes of one another, the longer key continuing with a byte below '=' (digit - . / :):
+    # a comparator that looks beyond the end of the key orders them differently
+    {"id": 6, "m": "net", "tags": [["host1", "b"], ["host", "a"], ["host-a", "c"]]},
+    {"id": 7, "m": "cpu", "tags": [["dc.2", "y"], ["zone id", "k 1"], ["dc", "x"]]},   # + a key with an escaped character
+    {"id": 8, "m": "io", "tags": [["a:c", "3"], ["a", "1"], ["a0", "4"], ["a/b", "2"]]},
 ]
 
 
@@ -138,8 +143,8 @@ def run(ctx):
     done = ctx.process(recs, out, rc, TEST, confirm)
     ctx.cov["traces_validated_against_impl"] += done.get("scenarios", 0)
     extra = {k: done.get(k, 0) for k in ("scenarios", "steps", "batches", "points", "dropped", "groups_created_by_writes",
-                                         "points_beyond_truncation", "cut_cases")}
-    if not ctx.replay and not done.get("mismatches") and (extra["points_beyond_truncation"] == 0 or extra["dropped"] == 0 or extra["groups_created_by_writes"] == 0):
+                                         "points_beyond_truncation", "cut_cases", "tag_order_cases")}
+    if not ctx.replay and not done.get("mismatches") and (extra["points_beyond_truncation"] == 0 or extra["dropped"] == 0 or extra["groups_created_by_writes"] == 0 or extra["tag_order_cases"] == 0):
         raise Infra("vacuous replay: %s" % extra)
     return ctx.finish("model_checking", extra, assumptions=[
         "the writer's MetaClient is a thin struct over a real meta.Data that performs meta.Client.CreateShardGroup's steps without the raft round trip; metadata replication is C07's subject",
